@@ -1314,8 +1314,9 @@ def ncf2ioapi(
     tv[:yyyyjjj.size, :, 1] = hhmmss[:, None].repeat(nvar, 1)
     if len(times) > 1:
         dt = (times[-1] - times[0]).total_seconds() / (len(times) - 1)
-        tmpd = datetime.datetime(1900, 1, 1) + datetime.timedelta(seconds=dt)
-        ofile.TSTEP = int(tmpd.strftime('%H%M%S'))
+        # HHMMSS of the elapsed time; the hours are not limited to 23
+        dt = int(round(dt))
+        ofile.TSTEP = (dt // 3600) * 10000 + (dt % 3600 // 60) * 100 + dt % 60
     else:
         # one step: there is no interval to measure; keep the input's step
         ofile.TSTEP = int(fileprops.get('TSTEP', 0))
